@@ -1112,6 +1112,9 @@ func checkC09(P *Prog, r *Result) {
 	// lives (a closure handed to an iteration helper) — and no field of a recycled per-node object carried
 	// from the node visited before: C01's child-clean rule and C07's reinit rule (node contexts and issues)
 	shareRule(P, r, checkC01, "C01/child-clean", nil, "C09/child-clean-any-order", 15)
+	// ... and what the node does itself after its children (its own tests, its own issues) must not look at the flags
+	// the child visited last left behind: which child that is, is the runtime's choice (C01's own-context-clean rule)
+	shareRule(P, r, checkC01, "C01/own-context-clean", nil, "C09/own-steps-after-any-last-child", 5)
 	shareRule(P, r, checkC07, "C07/reinit", func(o Obligation) bool {
 		return strings.Contains(o.Construct, "#zog/internals.SchemaCtx.") || strings.Contains(o.Construct, "#zog/internals.ZogIssue.")
 	}, "C09/no-carried-pooled-state", 0)
